@@ -143,7 +143,9 @@ func cmdCheck(args []string) {
 	if s := os.Getenv("VERIF_SEED"); s != "" {
 		seed, _ = strconv.Atoi(s)
 	}
-	timeout := 20
+	// per-obligation solver budget; obligations claimed on the unchanged tree discharge in well
+	// under a third of it (slowest: ~10 s on the 5 MB queries of verifyHeader)
+	timeout := 40
 	if *tier == "thorough" {
 		timeout = 120
 	}
